@@ -29,6 +29,12 @@ def family():
        A.v2_header(extra_headers=[("x-amz-meta-b", "2"), ("x-amz-meta-a", "1"), ("x-amz-meta-b", " 3 ")]))
     ok("v2:content-headers", "V2 header with Content-MD5 and Content-Type",
        A.v2_header("PUT", extra_headers=[("content-md5", "1B2M2Y8AsgTpgAmY7PhCfg=="), ("content-type", "text/plain")]))
+    ok("v2:path-escaped", "V2 header, key with percent-escapes (the path is signed as sent; the AWS documentation's Unicode-key example)",
+       A.v2_header("GET", "/dictionary/fran%C3%A7ais/pr%c3%a9f%c3%a8re"))
+    ok("v2:path-escaped-space", "V2 header, key with an escaped space", A.v2_header("GET", "/bkt/my%20key"))
+    no("v2:alt-escaped-subresource", "signed for /bkt/report?acl, sent as /bkt/report%3Facl (another object, no sub-resource)",
+       A.v2_header("GET", "/bkt/report", pairs=[("acl", "")], mutate=lambda rq: rq.update(uri="/bkt/report%3Facl")))
+    ok("v2:presigned-path-escaped", "V2 presigned URL, key with percent-escapes", A.v2_presigned("GET", "/bkt/pr%c3%a9%20x"))
     ok("v2:presigned", "V2 presigned URL before its Expires", A.v2_presigned())
     ok("v2:presigned-with-amz-date", "V2 presigned URL sent with an x-amz-date header (Expires, not the date, is signed)",
        A.v2_presigned(extra_headers=[("x-amz-date", "Tue, 27 Mar 2007 19:36:42 +0000")]))
